@@ -198,7 +198,7 @@ class CodecPairs(Stream):
         for c, off in [([2024, 2, 29, 23, 59, 59], 0), ([2024, 2, 29, 23, 59, 59], None), ([2024, 3, 1, 0, 30, 0], 3600), ([1000, 1, 1, 0, 0, 0], -86340), ([9999, 12, 31, 23, 59, 59], 86340), ([9999, 12, 31, 23, 59, 59], -60), ([1, 1, 1, 0, 0, 0], 60), ([99, 6, 1, 0, 0, 0], 0), ([100, 6, 1, 0, 0, 0], 0), ([1900, 2, 28, 23, 59, 59], -1)]
     ] + [
         {"codec": "ifrange", "etag": opt(hs, e), "t": t}
-        for e, t in [("abc", None), (None, 63839700306), (None, None), ("Thu, 01 Jan 2026 00:00:00 GMT", None), ("", None), ("W/x", None), ("a b", None)]
+        for e, t in [("abc", None), (None, 63839700306), (None, None), ("Thu, 01 Jan 2026 00:00:00 GMT", None), ("", None), ("W/x", None), ("a b", None), ("1 Jan 2026 00:00", None), ("Thu, 01 Jan 2026 00:00:00 +0000", None)]
     ]
 
     def cases(self, rng, tier):
@@ -724,9 +724,7 @@ class CodecPairs(Stream):
         return None
 
     def finding_key(self, case, what):
-        if case["codec"] == "ifrange" and case["etag"] not in (None, "~") and "parse(dump(v)) != v: etag=None date=datetime" in what:
-            return "F06a"
-        return None
+        return None  # no known finding is left for C06 (F06a was repaired by 31f8ea0)
 
     def nontrivial(self, case, real_out):
         return not real_out.startswith("EXC") and self.in_domain(case)
@@ -752,7 +750,6 @@ CHECK = Check(
         "integers are unbounded in the model; CPython refuses int<->str conversions beyond 4300 digits (ValueError) - outside every theorem's practical reach and caught as ValueError by every parser",
         "http_date/parse_date: the civil-date arithmetic is the model's own (proved); email.utils' formatter/parser are Python's and are tied to it by the stream (date, dateaware codecs); parseDate models email.utils only on the IMF-fixdate layout",
         "ETags stores frozensets: the theorem is stated for every iteration order of the two sets",
-        "known finding F06a: IfRange(etag=<text whose quoted form email.utils accepts as a date>) re-parses as a date",
     ],
     trusted_extra=["CPython str / re / urllib / email.utils / base64 / datetime semantics for the modelled primitives (validated by the stream, not verified)"],
     quick_budget=6000,
@@ -761,7 +758,7 @@ CHECK = Check(
 
 MANIFEST = {
     "level_text": "Machine-checked Lean 4 theorems parse(dump v) = v for each header codec over an executable model whose character classes, literal sets and typed-property tables are regenerated from the live werkzeug objects on every run; the hand-written scanners (urllib list scanner, option scanner, etag regex, range/content-range parsers, base64, civil dates) are tied to the code by a differential dump->parse stream, and the round-trip + normal-form oracle runs on the real code.",
-    "level_note": "Trusted: Lean kernel; extract.py; the correspondence harness; CPython str/re/urllib/email.utils/base64/datetime for modelled primitives. str.lower/title exact below U+0100 only. Known finding F06a (If-Range etag that reads as a date).",
+    "level_note": "Trusted: Lean kernel; extract.py; the correspondence harness; CPython str/re/urllib/email.utils/base64/datetime for modelled primitives. str.lower/title exact below U+0100 only.",
     "technique": "Lean 4 proof (induction over character lists, decide +kernel over regenerated class tables, omega for civil-date arithmetic) + model/code correspondence",
     "design_ref": "DESIGN.md section 4, C06",
 }
